@@ -1,6 +1,31 @@
 """Per-property manifest metadata.  bin/mkmanifest renders MANIFEST.json from this."""
 
 CHECKS = {
+    "C18": dict(
+        text="spec/StatusMap.tla states the normalisation as a total relation with numeric codes pinned from the EmberZNet headers "
+             "(unified passes through; OK iff the family's success code; the steering codes NOT_JOINED, NETWORK_UP/DOWN, "
+             "TABLE_ENTRY_ERASED, INDEX_OUT_OF_RANGE, MAX_MESSAGE_LIMIT_REACHED, NETWORK_BUSY, NO_BUFFERS, DELIVERY_FAILED map to their "
+             "unified counterparts; every other code to some non-OK status). TLC checks the relation is total and allows OK only for "
+             "success (StatusMapMC, the 8-bit families are the whole state space) and judges the real sl_Status.from_ember_status on "
+             "all 2 x 256 family values, every defined unified status and 68 undefined 32-bit samples (Trace_StatusMap).",
+        design_ref="3/C18",
+        note="Thin use of the technique: an input-quantified total mapping; the specification is an independent table and TLC the evaluator. "
+             "Exhaustive over the 8-bit families. Unified samples are below 2^31 (TLC integers).",
+        technique="TLA+ relational reference evaluated by TLC on the exhaustively enumerated domain (trace validation) + TLC totality check",
+    ),
+    "C19": dict(
+        text="spec/Watchdog.tla (failure counter, feed counter, version class, keep-alive choice, history) is model-checked for all outcome "
+             "sequences up to the bound: a feed raises iff the trailing run of failures exceeds the tolerated maximum, success clears the "
+             "count, no-op on v4 and counter read otherwise with read-and-clear on the period. Every success/timeout/EZSP-error sequence of "
+             "length 7 (quick) / 9 (thorough) for both version classes, sequences across the counter-clear boundary (after 177..181 "
+             "successful feeds, incl. a failing free-buffer read) and sequences through zigpy's watchdog loop are executed on the real "
+             "ControllerApplication._watchdog_feed (real EZSP, simulated NCP, virtual time) and validated by TLC against Trace_Watchdog "
+             "(raise/return, exception class, keep-alive command seen by the NCP, connection_lost iff raised).",
+        design_ref="3/C19",
+        note="Trusted: zigpy.util.Requests shim (compat.py), simulated EZSP NCP, virtual-time loop. MAX_WATCHDOG_FAILURES and the clear period "
+             "are read from the tree as configuration.",
+        technique="TLA+ spec + TLC exhaustive model check; exhaustive outcome-sequence enumeration on the implementation; TLC trace validation",
+    ),
     "C01": dict(
         text="spec/AshLink.tla composes the host as bellows implements it (AshHost.tla, fine-grained: receive, ACK timer, task resume, "
              "next waiter, caller cancellation) with a faulty FIFO line (deliver, drop, corrupt, duplicate, stall via timers, budgeted) "
